@@ -373,17 +373,20 @@ example :
       [97, 98, 99] := by
   simp [c11Abc, List.foldl, iterStep, LoopAcc.start, iterBody, iterStart, renderBlockBody, renderList, renderNode,
     wrapFailAt, M.mapFail, M.bind, M.pure, writeM, flushM, Prog.bind, Prog.mapFail, Prog.runPure, bind, pure, c11Ctx,
-    M.getEnv, M.ofRes, evaluate, eval, Env.set, Env.get, GoVal.toLiquid, GoVal.unwrap, GoVal.isNil, c11Out, writeAllM,
+    M.getEnv, M.ofRes, evaluate, eval, Env.set, Env.get, GoVal.toLiquid, GoVal.unwrap, GoVal.isNil, c11Out, writeAllM, writeVerbatimM,
     nmForloop]
 
-/-- the fold on a body `{{ x }}{% break %}`: the first item only (its text still pending in the
-    trim writer), then the loop is over — the items `b`, `c` change nothing -/
+/-- the fold on a body `{{ x }}{% break %}`: the first item only (a value is written through
+    `WriteVerbatim`: it has reached the writer, nothing is pending), then the loop is over — the
+    items `b`, `c` change nothing -/
 example :
     ∃ s', (c11Abc.foldl (iterStep [120] none (renderBlockBody c11Ctx [.obj 1 (.var [120]), .brk 1]) 3)
-        (LoopAcc.start ⟨[], {}⟩)).st = .broke s' ∧ s'.tw = { buf := [97], trim := false } := by
+        (LoopAcc.start ⟨[], {}⟩)).st = .broke s' ∧ s'.tw = { buf := [], trim := false } ∧
+      (c11Abc.foldl (iterStep [120] none (renderBlockBody c11Ctx [.obj 1 (.var [120]), .brk 1]) 3)
+        (LoopAcc.start ⟨[], {}⟩)).out = [97] := by
   simp [c11Abc, List.foldl, iterStep, LoopAcc.start, iterBody, iterStart, renderBlockBody, renderList, renderNode,
-    wrapFailAt, M.mapFail, M.bind, M.pure, writeM, Prog.bind, Prog.mapFail, Prog.runPure, bind, pure, c11Ctx,
-    M.getEnv, M.ofRes, evaluate, eval, Env.set, Env.get, GoVal.toLiquid, GoVal.unwrap, GoVal.isNil, c11Out, writeAllM,
+    wrapFailAt, M.mapFail, M.bind, M.pure, writeM, flushM, Prog.bind, Prog.mapFail, Prog.runPure, bind, pure, c11Ctx,
+    M.getEnv, M.ofRes, evaluate, eval, Env.set, Env.get, GoVal.toLiquid, GoVal.unwrap, GoVal.isNil, c11Out, writeAllM, writeVerbatimM,
     nmForloop]
 
 /-- `{% continue %}` first: every item is visited (index reaches 3), nothing is printed -/
